@@ -264,6 +264,95 @@ class _AttrIdioms(ast.NodeTransformer):
         return node
 
 
+class _YieldFromGenExp(ast.NodeTransformer):
+    """`yield from (elt for x in it if cond)` as a statement is the loop `for x in it: if cond: yield elt`"""
+
+    def __init__(self):
+        self.n = 0
+        self.bound = [set()]
+
+    def _fn(self, node):
+        # names bound by comprehensions are local to them: count only those bound outside
+        inside = {id(x) for g in ast.walk(node) if isinstance(g, (ast.GeneratorExp, ast.ListComp, ast.SetComp, ast.DictComp)) for c in g.generators for x in ast.walk(c.target)}
+        names = {a.arg for a in ast.walk(node.args) if isinstance(a, ast.arg)} | {n.id for n in ast.walk(node) if isinstance(n, ast.Name) and isinstance(n.ctx, ast.Store) and id(n) not in inside}
+        self.bound.append(names)
+        self.generic_visit(node)
+        self.bound.pop()
+        return node
+
+    visit_FunctionDef = visit_AsyncFunctionDef = _fn
+
+    def visit_For(self, node):
+        """`for x in [elt for y in it if c]: body` with a side-effect free elt is `for y in it: if c: x = elt; body`"""
+        self.generic_visit(node)
+        g = node.iter
+        if not isinstance(g, (ast.ListComp, ast.GeneratorExp)) or node.orelse or not isinstance(node.target, ast.Name):
+            return node
+        if any(c.is_async for c in g.generators) or any(isinstance(n, (ast.Call, ast.Await, ast.NamedExpr, ast.Yield, ast.YieldFrom)) for n in ast.walk(g.elt)):
+            return node
+        if any(isinstance(n, (ast.Break, ast.Continue)) for n in ast.walk(node)) and len(g.generators) > 1:
+            return node
+        tnames = {n.id for c in g.generators for n in ast.walk(c.target) if isinstance(n, ast.Name)}
+        if tnames & self.bound[-1] or node.target.id in tnames:
+            return node
+        body = [ast.copy_location(ast.Assign(targets=[node.target], value=g.elt, type_comment=None), node)] + node.body
+        for c in reversed(g.generators):
+            for cond in reversed(c.ifs):
+                body = [ast.copy_location(ast.If(test=cond, body=body, orelse=[]), cond)]
+            body = [ast.copy_location(ast.For(target=c.target, iter=c.iter, body=body, orelse=[], type_comment=None), node)]
+        self.n += 1
+        return body[0]
+
+    def visit_Expr(self, node):
+        self.generic_visit(node)
+        v = node.value
+        if isinstance(v, ast.Await):
+            return node
+        if not (isinstance(v, ast.YieldFrom) and isinstance(v.value, ast.GeneratorExp)):
+            return node
+        g = v.value
+        if any(c.is_async for c in g.generators):
+            return node
+        if {n.id for c in g.generators for n in ast.walk(c.target) if isinstance(n, ast.Name)} & self.bound[-1]:
+            return node  # the loop variable would shadow a local of the function
+        body = [ast.copy_location(ast.Expr(value=ast.copy_location(ast.Yield(value=g.elt), g.elt)), g.elt)]
+        for c in reversed(g.generators):
+            for cond in reversed(c.ifs):
+                body = [ast.copy_location(ast.If(test=cond, body=body, orelse=[]), cond)]
+            body = [ast.copy_location(ast.For(target=c.target, iter=c.iter, body=body, orelse=[], type_comment=None), node)]
+        self.n += 1
+        return body
+
+
+class _CallIdioms(ast.NodeTransformer):
+    """`itemgetter(k)` is `lambda x: x[k]`; `attrgetter('a')` is `lambda x: x.a`;
+    `d.setdefault(k, []).append(v)` is the per-key collection `d[k].append(v)` of a defaultdict"""
+
+    def __init__(self):
+        self.n = 0
+
+    def visit_Call(self, node):
+        self.generic_visit(node)
+        f = node.func
+        name = f.id if isinstance(f, ast.Name) else (f.attr if isinstance(f, ast.Attribute) and isinstance(f.value, ast.Name) and f.value.id == 'operator' else None)
+        if name == 'itemgetter' and len(node.args) == 1 and not node.keywords and isinstance(node.args[0], ast.Constant):
+            self.n += 1
+            lam = ast.Lambda(args=ast.arguments(posonlyargs=[], args=[ast.arg(arg='x')], vararg=None, kwonlyargs=[], kw_defaults=[], kwarg=None, defaults=[]), body=ast.Subscript(value=ast.Name(id='x', ctx=ast.Load()), slice=node.args[0], ctx=ast.Load()))
+            return ast.fix_missing_locations(ast.copy_location(lam, node))
+        if name == 'attrgetter' and len(node.args) == 1 and not node.keywords and isinstance(node.args[0], ast.Constant) and isinstance(node.args[0].value, str) and node.args[0].value.isidentifier():
+            self.n += 1
+            lam = ast.Lambda(args=ast.arguments(posonlyargs=[], args=[ast.arg(arg='x')], vararg=None, kwonlyargs=[], kw_defaults=[], kwarg=None, defaults=[]), body=ast.Attribute(value=ast.Name(id='x', ctx=ast.Load()), attr=node.args[0].value, ctx=ast.Load()))
+            return ast.fix_missing_locations(ast.copy_location(lam, node))
+        # <d>.setdefault(k, <empty collection>).<mutator>(..)
+        if isinstance(f, ast.Attribute) and f.attr in ('append', 'add', 'extend', 'update') and isinstance(f.value, ast.Call) and isinstance(f.value.func, ast.Attribute) and f.value.func.attr == 'setdefault' and len(f.value.args) == 2 and not f.value.keywords:
+            dflt = f.value.args[1]
+            empty = (isinstance(dflt, (ast.List, ast.Set)) and not dflt.elts) or (isinstance(dflt, ast.Dict) and not dflt.keys) or (isinstance(dflt, ast.Call) and isinstance(dflt.func, ast.Name) and dflt.func.id in ('list', 'set', 'dict') and not dflt.args and not dflt.keywords)
+            if empty:
+                self.n += 1
+                f.value = ast.fix_missing_locations(ast.copy_location(ast.Subscript(value=f.value.func.value, slice=f.value.args[0], ctx=ast.Load()), f.value))
+        return node
+
+
 class _NotCompare(ast.NodeTransformer):
     """not (a == b) -> a != b ; not (a is b) -> a is not b ; not (a in b) -> a not in b ; not not x (in tests) stays"""
 
@@ -594,7 +683,7 @@ class Normalizer:
             if not (isinstance(dec, ast.Name) and dec.id == 'staticmethod'):
                 return False
         a = d.node.args
-        if a.vararg is not None or a.kwarg is not None:
+        if (a.vararg is not None or a.kwarg is not None) and not self._forwards_stars_only(d):
             return False
         for n in _local_walk(d.node):
             if isinstance(n, (ast.Global,)):
@@ -604,6 +693,49 @@ class Normalizer:
             if isinstance(n, ast.Call) and ((isinstance(n.func, ast.Name) and n.func.id == d.name) or (isinstance(n.func, ast.Attribute) and n.func.attr == d.name)):
                 return False
         return not d.busy
+
+    def _forwards_stars_only(self, d: _Def) -> bool:
+        """*args / **kwargs of the helper are only passed on as *args / **kwargs of calls in its body"""
+        a = d.node.args
+        va, kw = (a.vararg.arg if a.vararg else None), (a.kwarg.arg if a.kwarg else None)
+        fine = set()
+        for n in ast.walk(d.node):
+            if isinstance(n, ast.Call):
+                for x in n.args:
+                    if isinstance(x, ast.Starred) and isinstance(x.value, ast.Name) and x.value.id == va:
+                        fine.add(id(x.value))
+                for k in n.keywords:
+                    if k.arg is None and isinstance(k.value, ast.Name) and k.value.id == kw:
+                        fine.add(id(k.value))
+        for n in ast.walk(d.node):
+            if isinstance(n, ast.Name) and n.id in (va, kw) and id(n) not in fine:
+                return False
+        return True
+
+    @staticmethod
+    def _splice_stars(node, d, bound):
+        """replace the forwarded *args / **kwargs in a copied helper body by the call site's extra arguments"""
+        a = d.node.args
+        va, kw = (a.vararg.arg if a.vararg else None), (a.kwarg.arg if a.kwarg else None)
+        if va is None and kw is None:
+            return node
+        for n in ast.walk(node):
+            if isinstance(n, ast.Call):
+                args = []
+                for x in n.args:
+                    if isinstance(x, ast.Starred) and isinstance(x.value, ast.Name) and x.value.id == va:
+                        args.extend(copy.deepcopy(e) for e in bound.get('*', []))
+                    else:
+                        args.append(x)
+                n.args = args
+                kws = []
+                for k in n.keywords:
+                    if k.arg is None and isinstance(k.value, ast.Name) and k.value.id == kw:
+                        kws.extend(copy.deepcopy(e) for e in bound.get('**', []))
+                    else:
+                        kws.append(k)
+                n.keywords = kws
+        return node
 
     def _bind(self, d: _Def, call: ast.Call, via_self: bool):
         a = d.node.args
@@ -624,11 +756,16 @@ class Normalizer:
         if any(isinstance(x, ast.Starred) for x in call.args) or any(k.arg is None for k in call.keywords):
             raise Refuse('star arguments')
         if len(call.args) > len(pos):
-            raise Refuse('too many positional arguments')
+            if a.vararg is None:
+                raise Refuse('too many positional arguments')
+            bound['*'] = list(call.args[len(pos):])
         for p, v in zip(pos, call.args):
             bound[p.arg] = v
         names = [p.arg for p in pos] + [p.arg for p in a.kwonlyargs]
         for k in call.keywords:
+            if k.arg not in names and a.kwarg is not None and k.arg not in (a.kwarg.arg, a.vararg.arg if a.vararg else None):
+                bound.setdefault('**', []).append(k)
+                continue
             if k.arg not in names or k.arg in bound:
                 raise Refuse('keyword mismatch')
             bound[k.arg] = k.value
@@ -729,6 +866,7 @@ class Normalizer:
                 ctx_names.add(l)
         tr = _Subst(rename, subst)
         body = [tr.visit(s) for s in body]
+        body = [self._splice_stars(s, d, bound) for s in body]
         # `nonlocal x` of a helper expanded inside the scope that owns x is a plain local there
         body = [s for s in body if not isinstance(s, ast.Nonlocal)] if nonlocals else body
         prologue = star_prologue + prologue
@@ -1000,7 +1138,7 @@ class Normalizer:
                         continue
                     e = self._expr_body(d)
                     if e is not None:
-                        new = _Subst({}, {p: bound[p] for p in names}).visit(copy.deepcopy(e))
+                        new = self._splice_stars(_Subst({}, {p: bound[p] for p in names}).visit(copy.deepcopy(e)), d, bound)
                         new = ast.copy_location(new, call)
                         ast.fix_missing_locations(new)
                     else:
@@ -1174,7 +1312,19 @@ class Normalizer:
         if not (isinstance(s, ast.Assign) and len(s.targets) == 1 and isinstance(s.targets[0], ast.Name) and isinstance(s.value, (ast.SetComp, ast.ListComp, ast.DictComp)) and len(s.value.generators) == 1):
             return None
         g = s.value.generators[0]
-        if not isinstance(g.iter, ast.Call) or self.resolve(g.iter.func, ctx_def) is None:
+        over_helper = isinstance(g.iter, ast.Call) and self.resolve(g.iter.func, ctx_def) is not None
+
+        def _stmt_helper_call(e):
+            for c in ast.walk(e):
+                if isinstance(c, ast.Call):
+                    hd = self.resolve(c.func, ctx_def)
+                    if hd is not None and self._expr_body(hd) is None:
+                        return True
+            return False
+
+        # a filter / element computed by a multi-statement helper: the loop form lets the helper be expanded in place
+        parts = list(g.ifs) + ([s.value.key, s.value.value] if isinstance(s.value, ast.DictComp) else [s.value.elt])
+        if not over_helper and not any(_stmt_helper_call(p_) for p_ in parts):
             return None
         t = s.targets[0].id
         comp = s.value
@@ -1746,6 +1896,51 @@ class Normalizer:
                 fdef.body = [_Subst(ren, {}).visit(st) for st in fdef.body]
             n.args = n.args[: k0 + 1]
             self.stats['idioms'] += 1
+        # (f(x, a, b) for x in xs) with f a de-hoisted method and a, b plain locals: a, b are closure variables of f again
+        # and the generator is map(f, xs) - the form `gather(*map(_closure, xs))` the code had before f was hoisted
+        for n in list(ast.walk(fn)):
+            if not isinstance(n, (ast.GeneratorExp, ast.ListComp)) or len(n.generators) != 1:
+                continue
+            g, c = n.generators[0], n.elt
+            if g.ifs or g.is_async or not isinstance(g.target, ast.Name):
+                continue
+            if not (isinstance(c, ast.Call) and isinstance(c.func, ast.Name) and c.func.id in nested and not c.keywords and c.args):
+                continue
+            fdef = nested[c.func.id]
+            if not getattr(fdef, '_dehoisted_from', None):
+                continue
+            refs = [x for x in ast.walk(fn) if isinstance(x, ast.Name) and x.id == fdef.name and isinstance(x.ctx, ast.Load)]
+            extra = c.args[1:]
+            if len(refs) != 1 or not (isinstance(c.args[0], ast.Name) and c.args[0].id == g.target.id) or not all(isinstance(v, ast.Name) and v.id != g.target.id for v in extra):
+                continue
+            a = fdef.args
+            pos_params = (a.posonlyargs + a.args)[1:]
+            if len(extra) > len(pos_params) or len(a.posonlyargs + a.args) - len(a.defaults) > len(c.args):
+                continue
+            body_names = _all_names(ast.Module(body=fdef.body, type_ignores=[]))
+            plan = [(pos_params[i], v.id) for i, v in enumerate(extra)]
+            if any(prm.arg != var and var in body_names for prm, var in plan):
+                continue
+            ren = {}
+            for prm, var in plan:
+                if prm.arg != var:
+                    ren[prm.arg] = var
+                for lst in (a.posonlyargs, a.args):
+                    if prm in lst:
+                        k_from_end = len(a.posonlyargs + a.args) - (a.posonlyargs + a.args).index(prm)
+                        if k_from_end <= len(a.defaults):
+                            del a.defaults[len(a.defaults) - k_from_end]
+                        lst.remove(prm)
+            if ren:
+                fdef.body = [_Subst(ren, {}).visit(st) for st in fdef.body]
+            c.args = c.args[:1]
+            if isinstance(n, ast.GeneratorExp) and len(a.posonlyargs + a.args) == 1:
+                par = parents.get(id(n))
+                if par is not None:
+                    new = ast.copy_location(ast.Call(func=ast.Name(id='map', ctx=ast.Load()), args=[ast.Name(id=fdef.name, ctx=ast.Load()), g.iter], keywords=[]), n)
+                    ast.fix_missing_locations(new)
+                    self._replace_child(par, n, new)
+            self.stats['idioms'] += 1
         parents = {}
         for n in ast.walk(fn):
             for c in ast.iter_child_nodes(n):
@@ -2126,7 +2321,226 @@ class Normalizer:
                     self.log.append(f'{rel}: module-level {f.name} is taken to be the method {cname}.{f.name}')
                 ast.fix_missing_locations(tree)
 
+    def _records_to_dicts(self):
+        """A new private record type (NamedTuple / dataclass that the design tree does not have) that only bundles the
+        values a function returns - built by `R(a=x, ..)`, read as `r.a` / `r._asdict()` by the callers - is the dict
+        `{'a': x, ..}` the function returned before the type was introduced.  Applied only when every use of every
+        value of the type is one of those forms (otherwise the type is left alone)."""
+        for rel, tree in self.trees.items():
+            recs = {}
+            for cname in self.classes.get(rel, {}):
+                f = self._record_fields(rel, cname)
+                if f:
+                    recs[cname] = f
+            if not recs:
+                continue
+            funcs = [n for n in ast.walk(tree) if isinstance(n, FuncNode)]
+            for cname, fields in recs.items():
+                ctors = [n for n in ast.walk(tree) if isinstance(n, ast.Call) and isinstance(n.func, ast.Name) and n.func.id == cname]
+                annot = set()
+                for n in ast.walk(tree):
+                    for a_ in ([n.returns] if isinstance(n, FuncNode) and n.returns is not None else []) + ([n.annotation] if isinstance(n, (ast.arg, ast.AnnAssign)) and n.annotation is not None else []):
+                        annot |= {id(x) for x in ast.walk(a_)}
+                other_refs = [n for n in ast.walk(tree) if isinstance(n, ast.Name) and n.id == cname and not any(c.func is n for c in ctors) and id(n) not in annot]
+                if not ctors or other_refs:
+                    continue
+                if any(any(isinstance(x, ast.Starred) for x in c.args) or any(k.arg is None for k in c.keywords) or len(c.args) + len(c.keywords) != len(fields) for c in ctors):
+                    continue
+                # functions all of whose returns construct the record
+                makers = set()
+                for fn in funcs:
+                    rets = [r for r in _local_walk(fn) if isinstance(r, ast.Return)]
+                    if rets and all(r.value is not None and any(r.value is c for c in ctors) for r in rets):
+                        makers.add(fn.name)
+                ctor_in_maker_return = all(any(isinstance(r, ast.Return) and r.value is c for fn in funcs if fn.name in makers for r in _local_walk(fn)) for c in ctors)
+                if not makers or not ctor_in_maker_return:
+                    continue
+                ok = True
+                rewrites = []  # (function, name node parent chain)
+                for fn in funcs:
+                    parents = {}
+                    for n in ast.walk(fn):
+                        for c in ast.iter_child_nodes(n):
+                            parents[id(c)] = n
+                    typed = set()
+                    for st in _local_walk(fn):
+                        if isinstance(st, ast.Assign) and len(st.targets) == 1 and isinstance(st.targets[0], ast.Name):
+                            v = st.value.value if isinstance(st.value, ast.Await) else st.value
+                            if isinstance(v, ast.Call):
+                                callee = v.func.attr if isinstance(v.func, ast.Attribute) else getattr(v.func, 'id', None)
+                                if callee in makers:
+                                    typed.add(st.targets[0].id)
+                    # every call of a maker must land in such a local
+                    for c in _local_walk(fn):
+                        if isinstance(c, ast.Call):
+                            callee = c.func.attr if isinstance(c.func, ast.Attribute) else getattr(c.func, 'id', None)
+                            if callee in makers:
+                                par = parents.get(id(c))
+                                if isinstance(par, ast.Await):
+                                    par = parents.get(id(par))
+                                if not (isinstance(par, ast.Assign) and len(par.targets) == 1 and isinstance(par.targets[0], ast.Name)):
+                                    ok = False
+                    for name in typed:
+                        stores = [n for n in ast.walk(fn) if isinstance(n, ast.Name) and n.id == name and isinstance(n.ctx, (ast.Store, ast.Del))]
+                        if len(stores) != 1:
+                            ok = False
+                        for u in [n for n in ast.walk(fn) if isinstance(n, ast.Name) and n.id == name and isinstance(n.ctx, ast.Load)]:
+                            par = parents.get(id(u))
+                            if isinstance(par, ast.Attribute) and isinstance(par.ctx, ast.Load) and par.attr in fields:
+                                rewrites.append((fn, par, 'field'))
+                            elif isinstance(par, ast.Attribute) and par.attr == '_asdict' and isinstance(parents.get(id(par)), ast.Call) and not parents[id(par)].args:
+                                rewrites.append((fn, parents[id(par)], 'asdict'))
+                            else:
+                                ok = False
+                if not ok:
+                    continue
+                for fn, node, kind in rewrites:
+                    if kind == 'field':
+                        new = ast.Subscript(value=node.value, slice=ast.Constant(value=node.attr), ctx=ast.Load())
+                    else:
+                        new = node.func.value
+                    self._replace_everywhere(fn, node, ast.copy_location(new, node))
+                for c in ctors:
+                    vals = dict(zip(fields, c.args))
+                    vals.update({k.arg: k.value for k in c.keywords})
+                    new = ast.copy_location(ast.Dict(keys=[ast.Constant(value=f) for f in fields], values=[vals[f] for f in fields]), c)
+                    for fn in funcs:
+                        if any(x is c for x in ast.walk(fn)):
+                            self._replace_everywhere(fn, c, new)
+                self.stats['idioms'] += 1
+                self.log.append(f'{rel}: record type {cname} is read as the dict its makers ({", ".join(sorted(makers))}) returned')
+            ast.fix_missing_locations(tree)
+
+    # ------------------------------------------------------------ re-outline
+    def _reoutline(self):
+        """A single-exit method of the inventory that no longer exists, while its statements (up to a renaming of
+        locals) now stand inside another function, was expanded into that caller: the statements become the call
+        again and the method is restored from the inventory, so rules anchored in it see what they saw before."""
+        for rel, tree in self.trees.items():
+            inv = self.inv.get(rel)
+            if not inv or not inv.get('sources'):
+                continue
+            classes = {st.name: st for st in tree.body if isinstance(st, ast.ClassDef)}
+            for q, source in sorted(inv['sources'].items()):
+                cname, mname = q.split('.', 1)
+                cnode = classes.get(cname)
+                if cnode is None or any(isinstance(n, FuncNode) and n.name == mname for n in ast.walk(tree)):
+                    continue
+                if any(isinstance(n, ast.Attribute) and n.attr == mname for n in ast.walk(tree)):
+                    continue  # still referenced: it lives somewhere else (a base class, a rename to come)
+                try:
+                    F = ast.parse(source).body[0]
+                except SyntaxError:
+                    continue
+                body = _strip_doc(F.body)
+                fa = F.args
+                if fa.vararg or fa.kwarg or any(isinstance(d, ast.Name) and d.id in ('staticmethod', 'classmethod', 'property') for d in F.decorator_list):
+                    continue
+                all_params = [a.arg for a in fa.posonlyargs + fa.args + fa.kwonlyargs]
+                if not all_params:
+                    continue
+                selfp, params = all_params[0], all_params[1:]
+                flocals = set(all_params) | {n.id for st in body for n in ast.walk(st) if isinstance(n, ast.Name) and isinstance(n.ctx, (ast.Store, ast.Del))} | {h.name for st in body for h in ast.walk(st) if isinstance(h, ast.ExceptHandler) and h.name}
+                last = body[-1]
+                ret_name = last.value.id if isinstance(last, ast.Return) and isinstance(last.value, ast.Name) and last.value.id in flocals else None
+                pattern = body[:-1] if ret_name is not None else body
+                if len(pattern) < 2:
+                    continue
+                done = False
+                for G in [n for n in ast.walk(cnode) if isinstance(n, FuncNode)]:
+                    if done:
+                        break
+                    gargs = G.args.posonlyargs + G.args.args
+                    for holder in ast.walk(G):
+                        for fld in ('body', 'orelse', 'finalbody'):
+                            blk = getattr(holder, fld, None)
+                            if not (isinstance(blk, list) and blk and isinstance(blk[0], ast.stmt)) or done:
+                                continue
+                            for i in range(0, len(blk) - len(pattern) + 1):
+                                seq = blk[i : i + len(pattern)]
+                                if holder is G and len(seq) == len(_strip_doc(G.body)):
+                                    continue  # a whole body: that is a renamed function, not an expansion
+                                m, rm = {}, {}
+                                if not all(self._unify(a, b, m, rm, flocals) for a, b in zip(pattern, seq)):
+                                    continue
+                                tail = None
+                                if ret_name is None and isinstance(last, ast.Return):
+                                    # the returned expression is the value of the last matched statement
+                                    tail = seq[-1]
+                                    if not isinstance(tail, (ast.Assign, ast.Return, ast.Expr)):
+                                        continue
+                                if any(p_ not in m for p_ in params) or (ret_name is not None and ret_name not in m):
+                                    continue
+                                if selfp in m and (not gargs or m[selfp] != gargs[0].arg) and m.get(selfp) != 'self':
+                                    continue
+                                # locals of the method must not be visible in the caller outside the matched statements
+                                inside = {id(x) for st in seq for x in ast.walk(st)}
+                                leak = {m[l] for l in flocals if l in m and l not in all_params and l != ret_name}
+                                if any(isinstance(x, ast.Name) and x.id in leak and id(x) not in inside for x in ast.walk(G)):
+                                    continue
+                                recv = ast.Name(id=m.get(selfp, gargs[0].arg if gargs else 'self'), ctx=ast.Load())
+                                npos = len(fa.posonlyargs + fa.args) - 1
+                                call = ast.Call(func=ast.Attribute(value=recv, attr=mname, ctx=ast.Load()), args=[ast.Name(id=m[p_], ctx=ast.Load()) for p_ in params[:npos]], keywords=[ast.keyword(arg=p_, value=ast.Name(id=m[p_], ctx=ast.Load())) for p_ in params[npos:]])
+                                value = ast.Await(value=call) if isinstance(F, ast.AsyncFunctionDef) else call
+                                if ret_name is not None:
+                                    new = ast.Assign(targets=[ast.Name(id=m[ret_name], ctx=ast.Store())], value=value, type_comment=None)
+                                else:
+                                    continue  # expression results are left to the rules
+                                ast.copy_location(new, seq[0])
+                                ast.fix_missing_locations(new)
+                                blk[i : i + len(pattern)] = [new]
+                                ast.copy_location(F, seq[0])
+                                for x in ast.walk(F):
+                                    if hasattr(x, 'lineno'):
+                                        x.lineno = x.end_lineno = seq[0].lineno
+                                cnode.body.append(F)
+                                self.stats['reoutlined'] = self.stats.get('reoutlined', 0) + 1
+                                self.log.append(f'{rel}: statements at line {seq[0].lineno} of {G.name} are the body of the former {q}: read as a call of it again')
+                                done = True
+                                break
+
+    def _unify(self, a, b, m, rm, flocals):
+        if type(a) is not type(b):
+            return False
+        if isinstance(a, ast.Name):
+            if type(a.ctx) is not type(b.ctx):
+                return False
+            return self._unify_name(a.id, b.id, m, rm, flocals)
+        if isinstance(a, ast.arg):
+            return self._unify_name(a.arg, b.arg, m, rm, flocals | {a.arg})
+        if isinstance(a, ast.ExceptHandler):
+            if (a.name is None) != (b.name is None):
+                return False
+            if a.name is not None and not self._unify_name(a.name, b.name, m, rm, flocals):
+                return False
+            if (a.type is None) != (b.type is None) or (a.type is not None and not self._unify(a.type, b.type, m, rm, flocals)):
+                return False
+            return self._unify_list(a.body, b.body, m, rm, flocals)
+        for f in a._fields:
+            x, y = getattr(a, f, None), getattr(b, f, None)
+            if isinstance(x, list):
+                if not isinstance(y, list) or not self._unify_list(x, y, m, rm, flocals):
+                    return False
+            elif isinstance(x, ast.AST):
+                if not isinstance(y, ast.AST) or not self._unify(x, y, m, rm, flocals):
+                    return False
+            elif x != y:
+                return False
+        return True
+
+    def _unify_list(self, xs, ys, m, rm, flocals):
+        return len(xs) == len(ys) and all((self._unify(x, y, m, rm, flocals) if isinstance(x, ast.AST) and isinstance(y, ast.AST) else x == y) for x, y in zip(xs, ys))
+
+    @staticmethod
+    def _unify_name(x, y, m, rm, flocals):
+        if x in flocals:
+            if m.setdefault(x, y) != y or rm.setdefault(y, x) != x:
+                return False
+            return True
+        return x == y and y not in rm
+
     def run(self):
+        self._reoutline()
         self._class_index()
         self._rehome_methods()
         self._index()
@@ -2136,7 +2550,14 @@ class Normalizer:
             for d in list(self.defs[rel]):
                 self.expand(d)
         self._remove_dead()
+        self._records_to_dicts()
         for tree in self.trees.values():
+            yf = _YieldFromGenExp()
+            yf.visit(tree)
+            self.stats['idioms'] += yf.n
+            ci = _CallIdioms()
+            ci.visit(tree)
+            self.stats['idioms'] += ci.n
             t = _NotCompare()
             t.visit(tree)
             _FoldFString().visit(tree)
